@@ -107,7 +107,7 @@ def build(rng, triple):
             # (YTK: the two next-level sites come from the product itself; fewer than two on the product is a
             # failure of the design and is reported by check_case, not filtered out here)
             if sites(s, M.cutter) == 2 and (sites(g[0] + g[1] + g[2], Nx.cutter) <= 2 if ytk
-                                             else sites(g[0] + g[1], Nx.cutter) == 0):
+                                             else sites(g[0] + g[1] + g[2], Nx.cutter) == 0):
                 break
         else:
             return None
@@ -214,7 +214,7 @@ def build_two_level(rng, kit):
                 if s is None:
                     return None
                 s += gen.rnd_avoid(rng, rng.randint(0, 6), forbid)
-                if sites(s, E.cutter) == 2 and sites(g[0] + g[1], DV.cutter) == 0:
+                if sites(s, E.cutter) == 2 and sites(g[0] + g[1] + g[2], DV.cutter) == 0:
                     break
             else:
                 return None
@@ -258,10 +258,11 @@ def check_two_level(ctx, case):
                 ctx.fail("two-level {}: cassette assembly {} fails: {}".format(case["kit"], i, type(e).__name__), case)
                 return
         cas = [C(p) for p in prods]
+        if any(sites(str(p.seq), C.cutter) != 2 for p in prods):
+            # a junction happened to spell a site of the next level's cutter: outside the hypothesis (exactly two sites)
+            ctx.note("two-level-skipped-extra-site")
+            return
         if not all(c.is_valid() for c in cas):
-            if any(sites(str(p.seq), C.cutter) != 2 for p in prods):
-                ctx.note("two-level-skipped-extra-site")
-                return
             ctx.fail("two-level {}: a cassette product is not accepted by {}".format(case["kit"], C.__name__), case)
             return
         targets = [str(c.target_sequence().seq) for c in cas]
